@@ -444,6 +444,7 @@ func (l *lexer) emitEOF() {
 	l.tokens <- Token{
 		Location: l.prev, // Point to previous position for better error messages.
 		Kind:     EOF,
+		EndAt:    l.end,
 	}
 	l.start = l.end
 	l.startLoc = l.loc
